@@ -20,7 +20,7 @@
 
    Trusted, not proved: the laws of the primitives, as in Properties/C17.v. *)
 From VK Require Import Base Core STV Rules Laws.
-From VK.Spec Require Import ScoreSpec EditSpec LawSpec BRDSpec.
+From VK.Spec Require Import ScoreSpec EditSpec LawSpec BRDSpec RunSpec.
 From VK.Proofs Require Import Lib_sets Dist C17_laws C17_brd.
 From Coq Require Import Permutation Lia.
 
@@ -188,8 +188,38 @@ Proof.
   split; [exact Hm|exact (Hp x)].
 Qed.
 
+(* numpy raises "probabilities contain NaN" (model: EValue) when the total weight is 0 or when the
+   normaliser of the squares, [squares_mass (escores prev) total], is 0.  On the first-place tally
+   of a valid profile with a positive total weight the normaliser is not 0 ... *)
+Theorem c17_brd_squares_mass_nonzero : forall (p : profile) (d : scores), wf_profile p ->
+  first_place_votes p = inl d -> 0 < total_wt (ballots p) ->
+  ~ squares_mass cand d (total_wt (ballots p)) == 0.
+Proof. exact (fpv_squares_mass_nonzero cand ceqb ceqb_spec). Qed.
+
+(* ... so from a linked state (every state a run passes to a step: c17_brd_escores_run,
+   c01_dictator_errors) a failing boosted step fails with IndexError (no ballot left), ValueError
+   (total weight not positive) or EScript, as before the normaliser test was modelled ... *)
+Theorem c17_brd_step_errors_linked : forall (p : profile) (prev : estate) (s : mstate) e,
+  ranked_profile cand p -> first_place_votes p = inl (escores prev) ->
+  brd_step p prev s = inr e ->
+  (e = EIndex /\ ballots p = []) \/ (e = EValue /\ total_wt (ballots p) <= 0) \/ e = EScript.
+Proof. exact (brd_step_errors_linked cand ceqb ceqb_spec). Qed.
+
+(* ... and a failing boosted run: seat count out of range, or one of these three on a reduced
+   profile *)
+Theorem c17_brd_run_errors_linked : forall m (p : profile) (s : mstate) e,
+  ranked_profile cand p -> run_dictator cand ceqb true m p s = inr e ->
+  (e = EValue /\ ~ (1 <= m <= Z.of_nat (length (cands p)))%Z) \/
+  (exists cur : profile, ranked_profile cand cur /\ incl (cands cur) (cands p) /\
+     ((e = EIndex /\ ballots cur = []) \/ (e = EValue /\ total_wt (ballots cur) <= 0) \/
+      e = EScript)).
+Proof. exact (brd_run_errors_linked cand ceqb ceqb_spec). Qed.
+
 End C17B.
 
+Print Assumptions c17_brd_squares_mass_nonzero.
+Print Assumptions c17_brd_step_errors_linked.
+Print Assumptions c17_brd_run_errors_linked.
 Print Assumptions c17_brd_step_closed.
 Print Assumptions c17_brd_step_support.
 Print Assumptions c17_brd_multiseat.
@@ -409,5 +439,22 @@ Proof.
     conjs; qdec.
 Qed.
 Print Assumptions c17_brd_multiseat_mass_unconditional_refuted.
+
+(* The link hypothesis of [c17_brd_step_errors_linked] cannot be dropped: from a previous state
+   whose recorded tallies are all zero (a get_profile replay that has diverged from the recorded
+   run) the squares branch raises ValueError although the total weight (5) is positive; from the
+   linked state the same draw elects candidate 2 *)
+Definition zero_state : estate positive :=
+  mkState 0%Z [[1;2;3;4]] [[]] [[]] [] [(1, 0%Q); (2, 0%Q); (3, 0%Q); (4, 0%Q)].
+Example c17_ex_brd_zero_tallies :
+  (0 < total_wt positive (ballots p4))%Q /\
+  (squares_mass positive (escores zero_state) (total_wt positive (ballots p4)) == 0)%Q /\
+  brd_step positive Pos.eqb p4 zero_state (mkM [DUnit (1#4); DCand 2] []) = inr EValue /\
+  (exists s0 x, round0 positive Pos.eqb SKFpv p4 = inl s0 /\
+     brd_step positive Pos.eqb p4 s0 (mkM [DUnit (1#4); DCand 2] []) = inl x).
+Proof.
+  split; [vm_compute; reflexivity|]. split; [vm_compute; reflexivity|].
+  split; [vm_compute; reflexivity|]. eexists. eexists. split; vm_compute; reflexivity.
+Qed.
 
 End C17BrdExamples.
